@@ -1319,10 +1319,20 @@ class Message(ABC):
         if size == SIZE_DELIMITED:
             size, _ = load_varint(stream)
 
+        if size is not None:
+            # The message is exactly the next `size` bytes, whatever they contain.
+            data = stream.read(size)
+            if len(data) != size:
+                raise ValueError(
+                    f"Expected message of size {size}, but was only able to "
+                    f"read {len(data)} bytes - the stream may have ended too soon,"
+                    " or the expected size may have been incorrect."
+                )
+            stream = BytesIO(data)
+
         # Got some data over the wire
         self._serialized_on_wire = True
         proto_meta = self._betterproto
-        read = 0
         for parsed in load_fields(stream):
             field_name = proto_meta.field_name_by_number.get(parsed.number)
             if not field_name:
@@ -1383,26 +1393,6 @@ class Message(ABC):
                     current.append(value)
             else:
                 setattr(self, field_name, value)
-
-            # If we have now loaded the expected length of the message, stop
-            if size is not None:
-                prev = read
-                read += len(parsed.raw)
-                if read == size:
-                    break
-                elif read > size:
-                    raise ValueError(
-                        f"Expected message of size {size}, can only read "
-                        f"either {prev} or {read} bytes - there is no "
-                        "message of the expected size in the stream."
-                    )
-
-        if size is not None and read < size:
-            raise ValueError(
-                f"Expected message of size {size}, but was only able to "
-                f"read {read} bytes - the stream may have ended too soon,"
-                " or the expected size may have been incorrect."
-            )
 
         return self
 
